@@ -570,7 +570,7 @@ def c07(ctx):
                 "with Apalache for three sources of arbitrary lengths (spec/apalache/MultiGenInd.tla). A: every such vector "
                 "run through the real generator (in-memory sources), complete iteration under a watchdog, twice per seed; "
                 "B: random vectors up to 6 sources x lengths 0..9. non-trivial = >=2 sources with different lengths" % (ms, ml))
-    ctx.assumptions = ["a next() call that does not return within 5 s is a hang (the work is microseconds)"]
+    ctx.assumptions = ["a next() call that does not return within the per-case time-out (30 s) is a hang (the work is microseconds)"]
     for st in ("sequential", "interleaved", "weighted"):
         cfg = ('CONSTANTS MaxSrc = %d MaxLen = %d Strategy = "%s" Buggy = FALSE\nSPECIFICATION Spec\n'
                'INVARIANTS OrderInv StrategyInv DoneInv NoHang\nPROPERTIES Terminates\nCHECK_DEADLOCK FALSE\n'
@@ -632,7 +632,7 @@ def tok_judge(ctx, cases_path, label, prefixes, keep=lambda c: True, extra_case=
     cpath = ctx.path("cases-%s.ndjson" % label)
     vlib.write_ndjson(cpath, cases)
     obs_path = ctx.path("obs-%s.ndjson" % label)
-    vlib.harness(["exec", "tok", cpath, obs_path, 20000])
+    vlib.harness(["exec", "tok", cpath, obs_path, 60000])
     obs = vlib.read_ndjson(obs_path)
     fails, drifts, st = vlib.judge(ctx, "Trace_Tok", obs_path, len(obs), name="Trace_Tok-" + label, timeout=judge_timeout)
     ntexts = sum(len(o.get("texts", [])) for o in obs)
@@ -857,7 +857,7 @@ def c19(ctx):
 
 def ws_judge(ctx, cases_path, label, prefix):
     obs_path = ctx.path("obs-%s.ndjson" % label)
-    vlib.harness(["exec", "ws", cases_path, obs_path, 10000])
+    vlib.harness(["exec", "ws", cases_path, obs_path, 60000])
     obs = vlib.read_ndjson(obs_path)
     fails, drifts, st = vlib.judge(ctx, "Trace_Ws", obs_path, len(obs), name="Trace_Ws-" + label)
     ctx.traces += len(obs)
@@ -929,7 +929,7 @@ def c11(ctx):
     ws_mc(ctx)
     ws_judge(ctx, ws_gen(ctx, "clean", 4 if q else 5), "A", "C11")
     ctx.exhaustive = True
-    ws_random(ctx, ("clean",), 8000 if q else 120000, "B", "C11", 1)
+    ws_random(ctx, ("clean", "cleanlong"), 8000 if q else 120000, "B", "C11", 1)
 
 
 @prop("C14", "ws", "Trace_Ws")
